@@ -93,9 +93,25 @@ def iter_values(I, v: Any, st, allow_truncated: bool = False) -> Optional[list]:
             return list(h.items)
         if h.kind == "dict":
             return list(h.fields.keys())
+        nt = namedtuple_values(I, h)
+        if nt is not None:
+            return nt
     if isinstance(v, range):
         return list(v)
     return None
+
+
+def namedtuple_values(I, h: HObj) -> Optional[list]:
+    """Field values, in declaration order, of an instance of a typing.NamedTuple subclass (it iterates / unpacks / indexes like a tuple)."""
+    if h.kind != "obj" or not h.cls or I is None:
+        return None
+    ci = I.model.classes.get(h.cls)
+    if ci is None or not any(ast.unparse(b).split(".")[-1] == "NamedTuple" for b in ci.node.bases):
+        return None
+    names = [f[0] for f in dataclass_fields(I, ci)]
+    if not all(n in h.fields for n in names):
+        return None
+    return [h.fields[n] for n in names]
 
 
 def abstract_elem(I, v: Any, st) -> Any:
@@ -615,6 +631,11 @@ def index_(I, base: Any, idx: Any, st, node=None) -> list:
                 return [(Unknown("dict[abstract]"), st)]
         if h.kind == "list" and h.cls == "textwords":
             return [(h.items[0], st)]
+        if h.kind == "obj" and isinstance(idx, int) and not isinstance(idx, bool) and namedtuple_values(I, h) is not None:
+            try:
+                return [(namedtuple_values(I, h)[idx], st)]
+            except IndexError:
+                return [(Raised("IndexError", node), st)]
         if h.kind == "list" and isinstance(idx, int) and not isinstance(idx, bool):
             if h.setlike:
                 st.note("index into summarised list")
